@@ -57,6 +57,11 @@ CHECKS = {
     note='Trusted: z3 (NRA and QF_FP), transliterator, libm sqrt modelled as exact real sqrt in the real-arithmetic part. Few-ulp accuracy of finite results, cexp/clog values and the overflow-scaling branch are not decided (stated).',
     technique='Cython source transliteration + symbolic execution; z3 nonlinear real arithmetic and QF_FP Float64 (Annex G clauses)',
     design='2/C20'),
+ 'C05': dict(
+    text='Bounded SMT validity checking: the compressible solid diffeq methods of odes.pyx (transliterated) and the real sensitivity kernels are executed on symbolic complex states; z3 decides the exact local energy identity d/dr{r^2 Im[conj(y1)y2 + l(l+1)conj(y3)y4 + conj(y5)y6/(4piG)]} = H_mu Im mu (+ H_K Im K), the sum-of-squares form of H_mu (hence Im k <= 0), exactness of the finite-difference stencils, the surface evaluation of the flux through find_love_cf and the prefactor of calc_radial_tidal_heating.',
+    note='Trusted: z3, symx executor, transliterator. The global statement follows from the local identity by integration (fundamental theorem of calculus) with the flux vanishing at the centre for regular solutions; quadrature error and integrator accuracy are outside.',
+    technique='symbolic execution of ODE right-hand sides and kernels + z3 nonlinear real arithmetic (pointwise identities)',
+    design='2/C05'),
 }
 NOT_YET = {}
 ALL = ['C%02d' % i for i in range(1, 21)]
